@@ -40,6 +40,9 @@ FLAVOURS = {
     'plainO2': (['-O2', '-g', '-gdwarf-4', '-DNDEBUG', '-fPIC'], ['-O2', '-g', '-gdwarf-4', '-DSIM_FLAVOUR_PLAIN'], [], True),    # dwarf-4: valgrind 3.19 cannot read clang's DWARF 5
     # the project's Debug flavour (-DDEBUG=true: CBOR_ASSERT and the code under #ifdef DEBUG are compiled in) at -O0 ...
     'plainO0': (['-O0', '-g', '-gdwarf-4', '-DDEBUG=true', '-fPIC'], ['-O2', '-g', '-gdwarf-4', '-DSIM_FLAVOUR_PLAIN'], [], True),
+    # size-optimised release build in the newest C dialect the compiler offers: what `CMAKE_BUILD_TYPE=MinSizeRel` with a compiler that
+    # passes the project's [[nodiscard]] probe produces (__OPTIMIZE_SIZE__ defined, __STDC_VERSION__ >= 201112L); every check runs a slice on it
+    'plainOs': (['-Os', '-g', '-gdwarf-4', '-DNDEBUG', '-fPIC', '-std=c2x'], ['-O2', '-g', '-gdwarf-4', '-DSIM_FLAVOUR_PLAIN'], [], True),
     # ... and under ThreadSanitizer; plainO2 is the release flavour (-DNDEBUG)
     'tsan': (['-O1', '-g', '-fno-omit-frame-pointer', '-fsanitize=thread', '-DDEBUG=true'], ['-O2', '-g', '-DSIM_FLAVOUR_TSAN'], ['-fsanitize=thread'], False),
 }
@@ -566,6 +569,10 @@ def run_property(prop, tier, seed):
             span = [(5, 200), (17, 1500), (200, 5000), (5, 64)][i]
             extra.append(span[0] + (h >> (32 * i)) % (span[1] - span[0] + 1))
         for L in extra: phases.append(('plainO2', L, 500, 3000))
+    # build-flavour swarm: a slice of every check on the size-optimised, newest-dialect build
+    OS_SLICE = {'C03': (4000, 40000), 'C04': (5000, 50000), 'C05': (3000, 30000), 'C06': (1500, 15000), 'C08': (30000, 300000), 'C09': (30000, 300000), 'C11': (8000, 80000),
+                'C12': (3000, 30000), 'C13': (5000, 50000), 'C14': (8000, 80000), 'C17': (800, 8000), 'C18': (3000, 30000), 'C19': (400, 3000)}
+    phases.append(('plainOs', None) + OS_SLICE[prop])
     scale = float(os.environ.get('VERIF_SCALE', '1'))
     total = dict(runs=0, nontrivial=0, foreign=0, sim_time=0, stats={}, samples=[], hashes=set(), chunks=0, digest=0)
     cands = []           # violation candidates: dict(cls, detail, plan, exe)
@@ -581,7 +588,8 @@ def run_property(prop, tier, seed):
             t_ph = time.time()
             chunk = max(20, min(4000, n // (JOBS * 6)))
             if wrapper: chunk = max(5, n // (JOBS * 2))
-            pending = [(a, min(a + chunk, n)) for a in range(0, n, chunk)]
+            base = 50000000 if flavour == 'plainOs' else 0     # the flavour slice explores plans of its own rather than repeating the first ones
+            pending = [(a, min(a + chunk, base + n)) for a in range(base, base + n, chunk)]
             ph_runs = 0
             with ThreadPoolExecutor(max_workers=JOBS) as ex:
                 futs = {ex.submit(run_chunk, exe, prop, seed, a, b, tier, tmpdir, flavour + str(L), False, wrapper): (a, b) for a, b in pending}
@@ -751,7 +759,7 @@ def cmd_replay(path):
 
 def cmd_setup():
     t0 = time.time()
-    for fl in ('asan', 'plainO2', 'plainO0', 'tsan'):
+    for fl in ('asan', 'plainO2', 'plainO0', 'plainOs', 'tsan'):
         build(fl)
     for L in (3, 1, 2): build('plainO2', L)
     build('asan', 3)
